@@ -43,7 +43,14 @@ func vp_C04_hashfail() {
 	case "extra-top-key":
 		m["foo"] = vpJVal("bar")
 	case "stripped-key":
-		switch vpChoice("stripped", "unsigned", "age_ts", "outlier", "destinations") {
+		strippedKinds := []string{"unsigned", "age_ts", "outlier", "destinations"}
+		if vpSpecTraits(ver).idFormat != EventIDFormatV1 {
+			// where the ID is the reference hash, an event_id sent on the wire is stripped too
+			strippedKinds = append(strippedKinds, "event_id")
+		}
+		switch vpChoice("stripped", strippedKinds...) {
+		case "event_id":
+			m["event_id"] = vpJVal("$forged:elsewhere")
 		case "unsigned":
 			m["unsigned"] = vpJObj("age", int64(3))
 		case "age_ts":
@@ -106,6 +113,10 @@ func vp_C04_hashfail() {
 	for _, k := range []string{"unsigned", "age_ts", "outlier", "destinations"} {
 		_, has := top[k]
 		vpAssert("stripped-on-receipt", !has)
+	}
+	if vpSpecTraits(ver).idFormat != EventIDFormatV1 {
+		_, has := top["event_id"]
+		vpAssert("wire-event-id-stripped", !has)
 	}
 	// the origin's signature verifies on the redacted form of whatever was returned
 	red, err := verImpl.RedactEventJSON(got.JSON())
